@@ -132,6 +132,45 @@ def mapFromItems (items : List Val) : Res Val :=
     if rest.all (fun y => typeOf y = .pair (typeOf k) (typeOf v)) then .ok (.map (typeOf k) (typeOf v) items) else .err
   | _ => .err
 
+/-- `PairType.from_comb(items)`: `create_type` asserts at least two items, `init` nests to the right -/
+def fromComb : List Val → Res Val
+  | [a, b] => .ok (.pair a b)
+  | a :: b :: c :: rest => (fromComb (b :: c :: rest)).bind fun r => .ok (.pair a r)
+  | _ => .err
+
+/-- `PairType.iter_comb(include_nodes)`: `yield self` (with nodes), then the first item, then — `i == 1` — the
+second item's own `iter_comb` if it is a pair, else the item itself (the last equation) -/
+def iterComb (nodes : Bool) : Val → List Val
+  | .pair a b => (if nodes then [Val.pair a b] else []) ++ a :: iterComb nodes b
+  | v => [v]
+
+/-- `PairType.unpairn_comb(count)`: like `iter_comb`, but descends into the second item only while `count > 0` -/
+def unpairnComb : Nat → Val → List Val
+  | count + 1, .pair a (.pair c d) => a :: unpairnComb count (.pair c d)
+  | _, .pair a b => [a, b]
+  | _, v => [v]
+
+/-- `[element if 2 * i + 1 == idx else item for i, item in enumerate(leaves)]` (enumeration continuing at `i`) -/
+def replaceLeaf (idx : Nat) (element : Val) : Nat → List Val → List Val
+  | _, [] => []
+  | i, x :: xs => (if 2 * i + 1 = idx then element else x) :: replaceLeaf idx element (i + 1) xs
+
+/-- `[item for i, item in enumerate(leaves) if 2 * i + 1 < idx]` -/
+def leavesBelow (idx : Nat) : Nat → List Val → List Val
+  | _, [] => []
+  | i, x :: xs => if 2 * i + 1 < idx then x :: leavesBelow idx (i + 1) xs else leavesBelow idx (i + 1) xs
+
+/-- `if isinstance(element, PairType): leaves.extend(element.iter_comb()) else: leaves.append(element)` -/
+def elementLeaves (element : Val) : List Val :=
+  match element with
+  | .pair _ _ => iterComb false element
+  | _ => [element]
+
+/-- `PairType.update_comb(idx, element)` -/
+def updateComb (idx : Nat) (element : Val) (p : Val) : Res Val :=
+  if idx % 2 = 1 then fromComb (replaceLeaf idx element 0 (iterComb false p))
+  else fromComb (leavesBelow idx 0 (iterComb false p) ++ elementLeaves element)
+
 def strVals : List Val → Option (List (List Nat))
   | [] => some []
   | .str s :: rest => (strVals rest).map (s :: ·)
@@ -182,6 +221,34 @@ def step (env : Env) (i : Instr) (s : Stack) : Res Stack :=
       match p with
       | .pair a b => pure ((s.push b).push a)
       | _ => .err
+  | .PAIRN n =>
+      if n < 2 then .err      -- `assert count >= 2`
+      else do
+        let (leaves, s) ← s.pop n
+        let r ← fromComb leaves
+        pure (s.push r)
+  | .UNPAIRN n =>
+      if n < 2 then .err
+      else do
+        let (p, s) ← s.pop1
+        match p with
+        | .pair _ _ => pure ((unpairnComb (n - 2) p).reverse.foldl Stack.push s)
+        | _ => .err
+  | .GETN n => do
+      let (p, s) ← s.pop1
+      if n = 0 then pure (s.push p)      -- `GET 0` is the identity on any value
+      else match p with
+        | .pair _ _ =>
+          match (iterComb true p)[n]? with      -- `access_comb`: `next(…)` raises when the index is past the end
+          | some r => pure (s.push r)
+          | none => .err
+        | _ => .err
+  | .UPDATEN n => do
+      let (element, p, s) ← s.pop2
+      if n = 0 then pure (s.push element)      -- `UPDATE 0` replaces the whole value
+      else match p with
+        | .pair _ _ => do let r ← updateComb n element p; pure (s.push r)
+        | _ => .err
   | .CAR => do
       let (p, s) ← s.pop1
       match p with
